@@ -62,7 +62,7 @@ def dedup_case(c):
     for op in c.ops:
         if op.get("op") in ("add", "clear", "limit", "markers", "new"):
             epoch += 1
-        if op.get("op") == "search":
+        if op.get("op") == "search" and not op.get("rep"):
             k = (epoch, json.dumps(op, sort_keys=True))
             if k in seen:
                 continue
@@ -346,6 +346,7 @@ def cases_for(prop, tier, seed, pools, toks, ck):
             more_toks(ck, toks, [(lang, w) for w in words], "pre_c05")
             cs, _ = gen.gen_exact_prefix_cases(lang, rnd, pools[lang], toks, per(12, 300))
             cases += cs
+            cases += gen.gen_span_cases(lang, rnd, pools[lang], toks, per(8, 200))
             cases += gen.gen_store_relations("C05", lang, rnd, pools[lang], toks, per(4, 100))
             cases += gen.gen_histories("C05", lang, rnd, pools[lang] + gen.ADVERSARIAL, toks, per(4, 100), length=12, adversarial=True)
     elif prop == "C06":
@@ -366,6 +367,7 @@ def cases_for(prop, tier, seed, pools, toks, ck):
     elif prop in ("C02", "C09"):
         for lang in L:
             cases += gen.gen_marker_cases(lang, rnd, pools[lang], toks, per(10, 300))
+            cases += gen.gen_markup_cases(lang, rnd, pools[lang], toks, per(6, 200))
             cases += gen.gen_histories(prop, lang, rnd, pools[lang], toks, per(3, 100), length=12, adversarial=True)
     elif prop == "C18":
         for lang in L:
